@@ -33,7 +33,14 @@ def walk_zorg_page(
     tree = parser.prog()  # type: ignore[no-untyped-call]
     compiler = ZorgFileCompiler(zorg_page, error_manager)
     walker = antlr4.ParseTreeWalker()
-    walker.walk(compiler, tree)
+    try:
+        walker.walk(compiler, tree)
+    except Exception:  # pylint: disable=broad-except
+        # The parse tree of a page with syntax errors is only partially built,
+        # so the compiler may trip over it. Such a page is broken either way.
+        if not error_manager.errors:
+            raise
+        zorg_page.has_errors = True
     return zorg_page
 
 
